@@ -87,7 +87,36 @@ Theorem closure_captures_cells : forall genv,
 Proof. exact EvalProps.closure_captures_cells. Qed.
 Print Assumptions closure_captures_cells.
 
+(* adjacent function items of a block are bound together (the typechecker declares such a run
+   together, the emitter allocates all their slots first): one new cell per function, in order,
+   each holding the closure over the SAME environment e', which binds every function of the run *)
+Theorem func_run_captures_env : forall genv k e st fd rest last,
+  let fds := fd :: run_funcs rest in
+  let c0 := length (cells st) in
+  let e' := func_env fds c0 e in
+  exists st1,
+    eval_items genv (S k) e st (IFunc fd :: rest) last =
+      eval_items genv k e' st1 (run_rest rest) (Some (length (run_funcs rest) + c0)) /\
+    (forall i f, nth_error fds i = Some f -> get_cell st1 (c0 + i) = Some (CFun f e')) /\
+    (forall c', c' < c0 -> get_cell st1 c' = get_cell st c') /\
+    length (cells st1) = c0 + length fds /\
+    arrs st1 = arrs st /\ recs st1 = recs st /\ out st1 = out st.
+Proof. exact EvalProps.func_run_captures_env. Qed.
+Print Assumptions func_run_captures_env.
+
+(* in e' the i-th function of the run denotes the i-th new cell (unless a later function of the
+   run has its name); every other name keeps its meaning *)
+Theorem func_run_names : forall fds c e,
+  (forall i f, nth_error fds i = Some f ->
+     (forall j g, i < j -> nth_error fds j = Some g -> fd_name g <> fd_name f) ->
+     lookup (fd_name f) (func_env fds c e) = Some (c + i)) /\
+  (forall x, (forall f, In f fds -> fd_name f <> x) -> lookup x (func_env fds c e) = lookup x e).
+Proof. exact EvalProps.func_run_names. Qed.
+Print Assumptions func_run_names.
+
+(* the special case of a function item that is not followed by another function item *)
 Theorem func_item_captures_env : forall genv k e st fd rest last,
+  run_funcs rest = [] ->
   let c := length (cells st) in
   let e' := (fd_name fd, c) :: e in
   exists st1,
